@@ -346,7 +346,10 @@ impl HeapBuffer {
 
     unsafe fn allocation(&self) -> *mut u8 {
         unsafe {
-            if self.len.is_heap() {
+            // The length slot exists whenever the *capacity* needs the `len` heap layout (see
+            // `layout_from_capacity` / `allocate_ptr`), even while the current length is small
+            // enough to be stored in `self.len`.
+            if is_len_heap_layout(self.header().capacity) {
                 cold_path();
                 self.ptr.as_ptr().cast::<u8>().sub(Self::header_offset()).sub(size_of::<usize>())
             } else {
